@@ -30,7 +30,7 @@ package heapq
 //@ pred upPre(q *Queue[T], i int) := heapBut(q, 0, i) && kidsAboveGrandparent(q, 0, i)
 //@ pred downPre(q *Queue[T], i int, L int) := (forall p int, c int :: {q.data[p], q.data[c]} L <= p && edge(p, c) && c < len(q.data) && c != i && p != i ==> le(q, p, c))
 //@+     && kidsAboveGrandparent(q, L, i)
-//@ pred distinct(q *Queue[T]) := forall a int, b int :: {q.data[a], q.data[b]} 0 <= a && a < b && b < len(q.data) ==> q.data[a] != q.data[b]
+//@ pred distinct(q *Queue[T]) := forall a int, b int :: {q.data[a], q.data[b]} 0 <= a && a < len(q.data) && 0 <= b && b < len(q.data) && a != b ==> q.data[a] != q.data[b]
 //@ pred trackedFrom(q *Queue[T], m int) := isReporter(q.move) ==> forall j int :: {q.data[j]} m <= j && j < len(q.data) ==> rep[key(q.data[j])] == j
 //@ pred tracked(q *Queue[T]) := trackedFrom(q, 0)
 //@ pred trk(q *Queue[T], m int) := isReporter(q.move) ==> distinct(q) && (forall j int :: {q.data[j]} m <= j && j < len(q.data) ==> rep[key(q.data[j])] == j)
@@ -86,6 +86,7 @@ package heapq
 //@   ensures  beyond: backing(q.data, len(q.data)) == old(backing(q.data, len(q.data)))
 //@   ensures  [C05] bag: bag(q.data) == old(bag(q.data))
 //@   ensures  [C06] reported: isReporter(q.move) ==> rep == upd(upd(old(rep), key(old(q.data[j])), i), key(old(q.data[i])), j)
+//@   ensures  [C06] dist: old(distinct(q)) ==> distinct(q)
 //@   ensures  [C06] silent: !isReporter(q.move) ==> rep == old(rep)
 //@   modifies elems(q.data), rep
 //@
